@@ -467,7 +467,13 @@ class Array(metaclass=MetaArray):
             shape = cls._shape
         if not cls._is_static_type:
             items = np.prod(shape)
-            self._offsets = Int64._array_from_buffer(buffer, coffset, items)
+            offsets = Int64._array_from_buffer(buffer, coffset, items)
+            if len(shape) > 1:  # from memory layout to index space
+                order = mk_order(cls._order, shape)
+                offsets = offsets.reshape(
+                    [shape[io] for io in order]
+                ).transpose(np.argsort(order))
+            self._offsets = offsets
         return self
 
     @classmethod
@@ -491,8 +497,13 @@ class Array(metaclass=MetaArray):
             )
             coffset += 8 * len(header)
         if not cls._is_static_type:
-            Int64._array_to_buffer(buffer, coffset, info.offsets)
-            coffset += 8 * len(info.offsets)
+            # the table follows the memory layout given by the axis order,
+            # as the strides (and the C API) assume
+            offsets = np.asarray(info.offsets)
+            if offsets.ndim > 1:
+                offsets = offsets.transpose(info.order)
+            Int64._array_to_buffer(buffer, coffset, offsets)
+            coffset += 8 * offsets.size
         if hasattr(cls._itemtype, "_dtype") and hasattr(
             value, "dtype"
         ):  # is a scalar type:
